@@ -194,6 +194,19 @@ func closureCorpus(quick bool) []recipe {
 				rc = fmt.Sprint(runs)
 			}
 			cls = fmt.Sprintf("k%d/%s/runs%s/cow%v/%v", ch.Kind, cc, rc, ch.COW, v.COW)
+			if !quick {
+				// thorough: finer classes (exact small cardinalities and run counts, which edge values are present)
+				cx := fmt.Sprint(card / 1000 * 1000)
+				if card <= 70 || (card >= 4094 && card <= 4098) || card >= 65534 {
+					cx = fmt.Sprint(card)
+				}
+				rx := fmt.Sprint(runs)
+				if runs > 8 {
+					rx = "many"
+				}
+				base := uint32(ch.Key) << 16
+				cls = fmt.Sprintf("k%d/%s/runs%s/cow%v/%v/e%v%v%v%v", ch.Kind, cx, rx, ch.COW, v.COW, w.M.Contains(base), w.M.Contains(base|63), w.M.Contains(base|64), w.M.Contains(base|65535))
+			}
 		}
 		if _, ok := classes[cls]; !ok {
 			classes[cls] = append([]string(nil), path...)
